@@ -5,9 +5,12 @@ package main
 
 import (
 	"bufio"
+	"io"
+
 	"encoding/json"
 	"flag"
 	"fmt"
+	log "github.com/sirupsen/logrus"
 	"os"
 	"runtime/debug"
 	"strings"
@@ -18,6 +21,7 @@ type J = map[string]interface{}
 var subcommands = map[string]func(args []string) error{}
 
 func main() {
+	log.SetOutput(io.Discard)
 	if len(os.Args) < 2 {
 		fmt.Fprintln(os.Stderr, "usage: harness <subcommand> [flags]")
 		os.Exit(2)
